@@ -17,6 +17,21 @@ from ..pool import pmap
 
 DETAILS = ["hash", "repr", "context", "all", "hash,repr", "repr,context"]
 MODES = ["file", "dir", "dir.dotted"]
+# value skins: the record sequence of a run does not depend on WHICH numbers flow through it, so one case in eight is
+# replayed with every number of its configuration and initial context replaced by an unusual-but-valid float
+SKINS = [float("inf"), float("-inf"), float("nan"), 1.7976931348623157e308, 5e-324, -0.0]
+
+
+def skin(obj, special):
+    if isinstance(obj, bool):
+        return obj
+    if isinstance(obj, float):
+        return special
+    if isinstance(obj, list):
+        return [skin(x, special) for x in obj]
+    if isinstance(obj, dict):
+        return {k: (v if k in ("processor", "context_key", "collection", "mode") else skin(v, special)) for k, v in obj.items()}
+    return obj
 
 
 def exp_shape(case) -> List[Dict[str, Any]]:
@@ -72,7 +87,7 @@ def check_stream(case, obs, untraced) -> List[tuple]:
     if ends and ((ends[-1].get("summary", {}).get("status") == "ok") != returned):
         bad.append(("ok-iff-returned", f"pipeline_end says {ends[-1].get('summary')} but the call {'returned' if returned else 'raised'}"))
     if (obs["raised"] is None) != (untraced["raised"] is None) or \
-            (obs["raised"] is not None and (type(obs["exc"]) is not type(untraced["exc"]) or obs["exc"].args != untraced["exc"].args)):
+            (obs["raised"] is not None and (type(obs["exc"]) is not type(untraced["exc"]) or repr(obs["exc"].args) != repr(untraced["exc"].args))):
         bad.append(("exception", f"traced run raised {obs['raised']!r}, untraced run raised {untraced['raised']!r}"))
     if not obs["handles_closed"] or (obs["handles"] and "close" not in obs["driver_calls"]):
         bad.append(("closed", f"trace file handle left open when the call returned (driver calls: {obs['driver_calls']})"))
@@ -86,15 +101,22 @@ def replay_chunk(cases: List[Dict[str, Any]]):
     from ..traced import run_traced
 
     out = {"n": 0, "fail_cases": 0, "viol": [], "by_class": {}}
+    from ..seams import make_recording_orchestrator
+    shared_orch = make_recording_orchestrator()      # ONE orchestrator object serving many pipelines, whatever their runs did
     for case in cases:
         nodes = g_prog(case["prog"])
         h = zlib.crc32(repr(case["prog"]).encode() + repr(case["ictx"]).encode())
         detail, mode = DETAILS[h % len(DETAILS)], MODES[(h // 7) % 3]
         data, ctx = g_data(case["idata"]), g_ctx(case["ictx"])
+        skinned = h % 8 == 3
+        if skinned:
+            special = SKINS[(h // 8) % len(SKINS)]
+            nodes, ctx = skin(nodes, special), skin(ctx, special)
         obs = run_traced(nodes, data, ctx, detail=detail, mode=mode)
         if obs["construct_error"]:
             continue
-        untraced = run_nodes(nodes, g_data(case["idata"]), g_ctx(case["ictx"]))
+        untraced = run_nodes(nodes, g_data(case["idata"]), skin(g_ctx(case["ictx"]), special) if skinned else g_ctx(case["ictx"]))
+        out["skinned"] = out.get("skinned", 0) + skinned
         out["n"] += 1
         fc = case["failClass"] or "ok"
         out["by_class"][fc] = out["by_class"].get(fc, 0) + 1
@@ -103,8 +125,18 @@ def replay_chunk(cases: List[Dict[str, Any]]):
         for clause, msg in check_stream(case, obs, untraced):
             where = f"{fc}@{case['failAt']}/{len(case['prog'])}" if case["status"] == "fail" else "ok"
             key = f"{clause}:{fc}" if clause in ("shape", "closed", "flushed", "ok-iff-returned") else f"{clause}:{fc}:{prog_key(case['prog'])}"
-            out["viol"].append((key, f"[{prog_key(case['prog'])}] ({where}, detail={detail}, mode={mode}) {msg}",
+            if skinned:
+                key += ":unusual-numbers"
+            out["viol"].append((key, f"[{prog_key(case['prog'])}] ({where}, detail={detail}, mode={mode}{', numbers replaced by ' + repr(special) if skinned else ''}) {msg}",
                                 {"case": case, "nodes": nodes, "detail": detail, "mode": mode}))
+        # the same run through an orchestrator object that has served the earlier cases of this chunk -- runs that failed
+        # while their nodes were being constructed, runs aborted by a BaseException, ... -- must leave the same stream
+        if h % 3 == 1:
+            obs3 = run_traced(nodes, g_data(case["idata"]), skin(g_ctx(case["ictx"]), special) if skinned else g_ctx(case["ictx"]), detail=detail, mode=mode, orchestrator=shared_orch)
+            if not obs3["construct_error"]:
+                for clause, msg in check_stream(case, obs3, untraced):
+                    out["viol"].append((f"shared-orchestrator:{clause}:{fc}", f"[{prog_key(case['prog'])}] through an orchestrator that served {out['n'] - 1} other runs before "
+                                        f"(detail={detail}, mode={mode}): {msg}", {"case": case, "nodes": nodes, "detail": detail, "mode": mode}))
         # the same call again on the SAME Pipeline object (a retry): its stream must satisfy every clause as well,
         # with ids of its own -- whatever the first run left behind
         if (case["status"] == "fail" and h % 4 == 0) or h % 16 == 0:
@@ -166,6 +198,7 @@ def _replay(run: core.Run, cfg: str, **kw):
         for r in pmap(replay_chunk, tlc.iter_emitted(path), chunk=300):
             n += r["n"]
             run.nontrivial += r["fail_cases"]
+            run.extra["cases_with_unusual_numbers"] = run.extra.get("cases_with_unusual_numbers", 0) + r.get("skinned", 0)
             bc = run.extra.setdefault("cases_by_failure_class", {})
             for k, v in r["by_class"].items():
                 bc[k] = bc.get(k, 0) + v
